@@ -321,11 +321,36 @@ def serUnitStruct (ext : Ext) (S : Schema) (node : Node) (name : String) : SerM 
     | n@(.string) | n@(.bytes) | n@(.enum _ _) => serStrAt ext n name
     | _ => SerM.fail .custom
 
+/-- On a union, the `Null` unit variant selects the null branch by name — unless the branch
+    that type-directed selection would pick is an enum with a `Null` symbol (repair of D12). -/
+def nullVariantBranch (S : Schema) (vs : List Nat) (variant : String) : Option Nat :=
+  if variant = "Null" then
+    match namedLookup "Null" (branchNodes S vs) with
+    | some d =>
+      match (vs[d]?).bind (S[·]?) with
+      | some .null =>
+        let isEnumSymbol := match unnamedLookup .unitVariant (branchNodes S vs) with
+          | some e => (match (vs[e]?).bind (S[·]?) with
+            | some (.enum _ syms) => syms.contains "Null"
+            | _ => false)
+          | none => false
+        if isEnumSymbol then none else some d
+      | _ => none
+    | none => none
+  else none
+
+def serUnitVariantAt (ext : Ext) (variant : String) : Node → SerM Unit
+  | .null => if variant = "Null" then pure () else SerM.fail .custom
+  | n@(.string) | n@(.bytes) | n@(.enum _ _) => serStrAt ext n variant
+  | _ => SerM.fail .custom
+
 def serUnitVariant (ext : Ext) (S : Schema) (node : Node) (variant : String) : SerM Unit :=
-  viaUnion S node .unitVariant fun
-    | .null => if variant = "Null" then pure () else SerM.fail .custom
-    | n@(.string) | n@(.bytes) | n@(.enum _ _) => serStrAt ext n variant
-    | _ => SerM.fail .custom
+  match node with
+  | .union vs =>
+    match nullVariantBranch S vs variant with
+    | some d => writeVarI64 d
+    | none => viaUnion S node .unitVariant (serUnitVariantAt ext variant)
+  | _ => viaUnion S node .unitVariant (serUnitVariantAt ext variant)
 
 /-! ### Sequences as bytes / fixed / duration: element extractors -/
 
